@@ -16,12 +16,17 @@
     revise ins'  an observer got the lock, replaced the insights, notified, released — enabled only while
                  the lock is free: the orchestrator is inside `wait()` (`waiting`, or `notified` = woken but
                  not yet running). A waiting orchestrator is woken; a notified one stays notified.
-    acquire      `wait()` returns with the lock; `adjust_tasks` starts: `terminate_redundancies` is called
-                 with `insights.watched_resources | …, insights.namespaces | {None}` — new sets, i.e. a
-                 snapshot — and suspends in `aiotasks.stop()`
-    termDone     the redundant tasks have stopped: `ensemble.del_keys(redundant_keys)`
+    acquire      `wait()` returns with the lock; `adjust_tasks` starts: `terminate_redundancies` computes the
+                 redundant keys from `insights.watched_resources | …, insights.namespaces | {None}` and the
+                 tasks' `done()` — a snapshot — and suspends in `aiotasks.stop()`. (The keys are deleted after
+                 the stop; nobody reads the ensemble in between, so the model drops them here.)
+    termDone     the redundant tasks have stopped (this needs their cooperation: a handler that never
+                 returns keeps the pass, and with it the lock, forever)
     spawnAll     `spawn_missing_watchers(watched_resources=insights.watched_resources, …)` reads the LIVE
                  insights (`itertools.product` materialises them now), spawns, the pass ends, `wait()` again
+    die k        the watcher under key `k` exits on its own (HTTP 404 out of its stream while its CRD is away):
+                 `exception_handler` lets `APINotFoundError` pass, takes no lock, NOTIFIES NOBODY. Any time.
+                 (A task ending with any other error cancels the orchestrator and stops the operator: C20.)
   `lockedPass = true` is the code as it is. `lockedPass = false` is the variant that leaves the
   `async with` before the pass (`while True: async with revised: await revised.wait()` and the pass outside):
   then `revise` is enabled during the pass too, and wakes nobody.
@@ -34,10 +39,10 @@ namespace Kopf.C19.Orch
 open Kopf.C19.Ens
 
 inductive Pc where
-  | waiting                       -- in `wait()`, not notified: the lock is free
-  | notified                      -- woken, about to re-acquire the lock
-  | stopping (snap : Insights)    -- in `terminate_redundancies`, suspended in `aiotasks.stop()`
-  | spawning                      -- between `terminate_redundancies` and `spawn_missing_watchers`
+  | waiting      -- in `wait()`, not notified: the lock is free
+  | notified     -- woken, about to re-acquire the lock
+  | stopping     -- in `terminate_redundancies`, suspended in `aiotasks.stop()`
+  | spawning     -- between `terminate_redundancies` and `spawn_missing_watchers`
   deriving DecidableEq, Repr
 
 inductive Label where
@@ -45,6 +50,7 @@ inductive Label where
   | acquire
   | termDone
   | spawnAll
+  | die (k : Key)
   deriving Repr
 
 structure State where
@@ -53,16 +59,21 @@ structure State where
   ens : Ensemble
   pc : Pc
   revs : List Insights      -- ghost: every revision so far, newest first
-  hist : List Insights      -- ghost: the insights each completed pass ended with, oldest first
+  hist : List Ev            -- ghost: completed passes and deaths, in the order they took effect
+  pend : List Key           -- ghost: deaths during the running pass (they take effect after it)
+  diedSince : List Key      -- ghost: deaths since the last completed pass looked at the tasks
   deriving Repr
 
 def init (lockedPass : Bool) : State :=
-  { lockedPass := lockedPass, ins := ⟨[], []⟩, ens := Ens.empty, pc := .waiting, revs := [], hist := [] }
+  { lockedPass := lockedPass, ins := ⟨[], []⟩, ens := Ens.empty, pc := .waiting, revs := [], hist := [],
+    pend := [], diedSince := [] }
 
 def lockFree (s : State) : Bool :=
   match s.pc with
   | .waiting | .notified => true
   | _ => !s.lockedPass
+
+def killMany (e : Ensemble) (ks : List Key) : Ensemble := ks.foldl kill e
 
 def step (s : State) : Label → Option State
   | .revise ins' =>
@@ -72,16 +83,25 @@ def step (s : State) : Label → Option State
       else none
   | .acquire =>
       match s.pc with
-      | .notified => some { s with pc := .stopping s.ins }
+      | .notified => some { s with ens := terminate s.ens s.ins, pc := .stopping }
       | _ => none
   | .termDone =>
       match s.pc with
-      | .stopping snap => some { s with ens := terminate s.ens snap, pc := .spawning }
+      | .stopping => some { s with pc := .spawning }
       | _ => none
   | .spawnAll =>
       match s.pc with
-      | .spawning => some { s with ens := spawn s.ens (pairs s.ins), pc := .waiting, hist := s.hist ++ [s.ins] }
+      | .spawning => some { s with ens := spawn s.ens (pairs s.ins), pc := .waiting,
+                                   hist := s.hist ++ [.pass s.ins] ++ s.pend.map Ev.die,
+                                   diedSince := s.pend, pend := [] }
       | _ => none
+  | .die k =>
+      if s.ens.keys.contains k then
+        match s.pc with
+        | .waiting | .notified =>
+            some { s with ens := kill s.ens k, hist := s.hist ++ [.die k], diedSince := s.diedSince ++ [k] }
+        | _ => some { s with ens := kill s.ens k, pend := s.pend ++ [k] }
+      else none
 
 def run (s : State) : List Label → Option State
   | [] => some s
@@ -91,5 +111,10 @@ def run (s : State) : List Label → Option State
 
 /-- Nothing of the orchestrator is pending: it sits in `wait()` and nobody has notified it. -/
 def Quiescent (s : State) : Prop := s.pc = .waiting
+
+/-- the segments of the orchestrator's own coroutine -/
+def Label.isOrch : Label → Bool
+  | .acquire | .termDone | .spawnAll => true
+  | _ => false
 
 end Kopf.C19.Orch
